@@ -662,3 +662,82 @@ Lemma functions_of_counts_l : forall a b, ta_equiv a b ->
 Proof.
   intros a b (_ & _ & _ & _ & _ & C & _ & _ & T & W & _) X F HF. rewrite T, W. apply HF. exact C.
 Qed.
+
+(* ------------------------------------------------------------------ the repaired forms (DESIGN 5.2) *)
+
+Lemma extend_r_total_l : forall a b,
+  ta_ign_el a = ta_ign_el b -> ta_ign_ages a = ta_ign_ages b -> ta_use_w a = ta_use_w b ->
+  ta_splits b = [] \/ (ta_splits a = [] /\ ta_rooting a = None) \/ ta_rooting a = ta_rooting b ->
+  exists t', extend_r a b = (t', None) /\
+             (ta_splits b = [] -> t' = a) /\
+             (ta_splits b <> [] ->
+              ta_splits t' = ta_splits a ++ ta_splits b /\ ta_elens t' = ta_elens a ++ ta_elens b /\
+              ta_leafsets t' = ta_leafsets a ++ ta_leafsets b /\ ta_weights t' = ta_weights a ++ ta_weights b /\
+              ta_sd t' = sd_update (ta_sd a) (ta_sd b) /\ ta_rooting t' = ta_rooting b).
+Proof.
+  intros a b F1 F2 F3 H. unfold extend_r.
+  destruct (ta_splits b) as [|sb rb] eqn:Eb; cbn [is_nil].
+  - exists a. split; [reflexivity|]. split; [reflexivity | intro N; exfalso; apply N; reflexivity].
+  - set (a' := if is_nil (ta_splits a) && is_none (ta_rooting a) then set_rooting a (ta_rooting b) else a).
+    assert (Ha : ta_rooting a' = ta_rooting b /\ ta_ign_el a' = ta_ign_el a /\ ta_ign_ages a' = ta_ign_ages a /\
+                 ta_use_w a' = ta_use_w a /\ ta_splits a' = ta_splits a /\ ta_elens a' = ta_elens a /\
+                 ta_leafsets a' = ta_leafsets a /\ ta_weights a' = ta_weights a /\ ta_sd a' = ta_sd a).
+    { subst a'. destruct H as [H|[[H1 H2]|H]]; [discriminate | |].
+      - assert (E : is_nil (ta_splits a) && is_none (ta_rooting a) = true) by (rewrite H1, H2; reflexivity).
+        rewrite E. cbn. repeat split; reflexivity.
+      - destruct (is_nil (ta_splits a) && is_none (ta_rooting a)); cbn; repeat split; try reflexivity; exact H. }
+    destruct Ha as (R & G1 & G2 & G3 & L1 & L2 & L3 & L4 & L5).
+    rewrite (extend_total_partial_l a' b) by congruence.
+    eexists. split; [reflexivity|]. split; [discriminate|]. intros _.
+    unfold extend_lists. cbn. rewrite L1, L2, L3, L4, L5, Eb. repeat split; try reflexivity. exact R.
+Qed.
+
+Lemma extend_r_example_l :
+  exists a b ab ba,
+    a = fst (add_tree (new_cfg ex_cfg) (ex_rec (Some false)) None) /\ b = new_cfg ex_cfg /\
+    extend_r a b = (a, None) /\ extend_r b a = (ba, None) /\ plus_r a b = (Some ab, None) /\
+    plus_r b a = (Some ba, None) /\ ta_rooting ba = Some false /\ ta_splits ba = ta_splits a.
+Proof.
+  exists (fst (add_tree (new_cfg ex_cfg) (ex_rec (Some false)) None)), (new_cfg ex_cfg).
+  eexists. eexists. split; [reflexivity|]. split; [reflexivity|].
+  split; [vm_compute; reflexivity|]. split; [vm_compute; reflexivity|].
+  split; [vm_compute; reflexivity|]. split; [vm_compute; reflexivity|].
+  split; vm_compute; reflexivity.
+Qed.
+
+Lemma norm_rooting_rooted x : tr_rooting (norm_rooting x) = Some (tr_rooted x).
+Proof. unfold norm_rooting, tr_rooted. destruct (tr_rooting x) as [[|]|]; reflexivity. Qed.
+
+Lemma merge_partition_repaired_l : forall c (rooted : bool) trees parts,
+  (c_rooting c = None \/ c_rooting c = Some rooted) ->
+  Forall (fun x => tr_rooted x = rooted /\ (c_ign_ages c = false -> tr_ages_err x = None)) trees ->
+  Permutation (concat parts) trees ->
+  exists m s,
+    collate (new_cfg c) (map (fun p => add_all (new_cfg c) (map norm_rooting p)) parts) = (m, None) /\
+    add_all (new_cfg c) (map norm_rooting trees) = (s, None) /\
+    ta_equiv m s.
+Proof.
+  intros c rooted trees parts Hc F P.
+  replace (map (fun p => add_all (new_cfg c) (map norm_rooting p)) parts)
+    with (map (add_all (new_cfg c)) (map (map norm_rooting) parts)) by (rewrite map_map; reflexivity).
+  apply merge_partition_l with (r := Some rooted); [exact Hc | |].
+  - rewrite Forall_forall in *. intros y Iy. apply in_map_iff in Iy. destruct Iy as [x [<- Ix]].
+    destruct (F x Ix) as [F1 F2]. split; [rewrite norm_rooting_rooted, F1; reflexivity | exact F2].
+  - rewrite <- concat_map. apply Permutation_map. exact P.
+Qed.
+
+(* with the repaired add_tree the two F20 witnesses merge in both directions and both orders *)
+Lemma undefined_rooting_repaired_example_l :
+  exists a b t1 t2,
+    a = fst (add_tree_r (new_cfg ex_cfg) (ex_rec None) None) /\
+    b = fst (add_tree_r (new_cfg ex_cfg) (ex_rec (Some false)) None) /\
+    (exists t', update a b = (t', None)) /\ (exists t', update b a = (t', None)) /\
+    add_all (new_cfg ex_cfg) (map norm_rooting [ex_rec None; ex_rec (Some false)]) = (t1, None) /\
+    add_all (new_cfg ex_cfg) (map norm_rooting [ex_rec (Some false); ex_rec None]) = (t2, None).
+Proof.
+  exists (fst (add_tree_r (new_cfg ex_cfg) (ex_rec None) None)),
+         (fst (add_tree_r (new_cfg ex_cfg) (ex_rec (Some false)) None)).
+  eexists. eexists. split; [reflexivity|]. split; [reflexivity|].
+  split; [eexists; vm_compute; reflexivity|]. split; [eexists; vm_compute; reflexivity|].
+  split; vm_compute; reflexivity.
+Qed.
